@@ -57,18 +57,33 @@ class Native:
         self.dev, self.rel = build.native_build(log)
 
     def run(self, prop, cases, release=False, timeout=600):
-        if not cases: return []
-        binp = self.rel if release else self.dev
-        inp = '\n'.join(json.dumps(c) for c in cases) + '\n'
-        p = subprocess.run([binp, prop], input=inp.encode(), stdout=subprocess.PIPE, stderr=subprocess.PIPE, timeout=timeout)
-        lines = [l for l in p.stdout.decode('utf-8', 'replace').split('\n') if l.strip()]
+        """one result per case; a case that kills the process (abort, watchdog exit) gets {'crash': ..} / its own line and the
+        remaining cases are run in a fresh process"""
         out = []
-        for l in lines:
-            try: out.append(json.loads(l))
-            except json.JSONDecodeError: out.append({'garbled': l})
-        while len(out) < len(cases):
-            out.append({'crash': p.stderr.decode('utf-8', 'replace')[-400:], 'exit': p.returncode})
-        return out
+        binp = self.rel if release else self.dev
+        todo = list(cases)
+        while todo:
+            inp = '\n'.join(json.dumps(c) for c in todo) + '\n'
+            try:
+                p = subprocess.run([binp, prop], input=inp.encode(), stdout=subprocess.PIPE, stderr=subprocess.PIPE, timeout=timeout)
+                stdout, stderr, rc = p.stdout, p.stderr, p.returncode
+            except subprocess.TimeoutExpired as e:
+                stdout, stderr, rc = e.stdout or b'', b'timeout of the replay process', -9
+            got = []
+            for l in stdout.decode('utf-8', 'replace').split('\n'):
+                if not l.strip(): continue
+                try: got.append(json.loads(l))
+                except json.JSONDecodeError: got.append({'garbled': l})
+            got = got[:len(todo)]
+            out.extend(got)
+            if len(got) < len(todo):
+                if not (got and got[-1].get('timeout')):
+                    out.append({'crash': stderr.decode('utf-8', 'replace')[-400:], 'exit': rc}); todo = todo[len(got) + 1:]
+                else:
+                    todo = todo[len(got):]
+            else:
+                todo = []
+        return out[:len(cases)] + [{'crash': 'no output'}] * max(0, len(cases) - len(out))
 
 
 def load_known(prop):
